@@ -530,3 +530,40 @@ HARNESSES["c07_reset"]["props"] = sorted(set(HARNESSES["c07_reset"]["props"]) | 
 HARNESSES["c07_reset"]["shared"] = {"C07.reset": ["C08", "C06"], "C07.same-verifier": ["C08", "C06"]}
 HARNESSES["c06_verdict"]["props"] = sorted(set(HARNESSES["c06_verdict"]["props"]) | {"C08", "C07"})
 HARNESSES["c06_verdict"]["shared"] = {"C06.verdict.readonly": ["C08", "C07"], "C06.verdict.panics-when-differs": ["C08"]}
+
+
+# ------------------------------------------------------------------------------------------------
+# C13 (macro side): the function a fake! arm generates must have the calling convention the arm declares.
+# CBMC has no notion of calling conventions, so this is a syntactic scan of the arm's transcriber; a flag
+# becomes a violation only if a generated native program (24-byte struct passed by value) misbehaves.
+def scan_fake_abi(repo):
+    arms = gen_macros.enumerate_arms(repo)
+    bad = [a for a in arms if a["parsed"] and a.get("declared_kind") and a["declared_kind"] != a["kind"]]
+    unknown = [a for a in arms if a["parsed"] and not a.get("declared_kind")]
+    scan_fake_abi.flagged = bad
+    if unknown:
+        return None, "cannot find the `fn fake` item in arm(s) %s" % [a["idx"] for a in unknown]
+    if bad:
+        return False, "arm(s) %s declare `%s` in func_type but generate `%s fake(..)`" % ([a["idx"] for a in bad], bad[0]["kind"], bad[0]["declared_kind"])
+    return True, "all %d arms generate a function with exactly the qualifiers (unsafe / extern ABI) of their func_type" % len(arms)
+
+
+def replay_fake_abi(verif):
+    out = []
+    for a in getattr(scan_fake_abi, "flagged", [])[:2]:
+        prog, observes = gen_macros.abi_replay_program(a)
+        d = os.path.join(verif, "work", "abi_replay_%d" % a["idx"])
+        os.makedirs(os.path.join(d, "src"), exist_ok=True)
+        open(os.path.join(d, "Cargo.toml"), "w").write('[package]\nname = "abi_replay"\nversion = "0.0.0"\nedition = "2021"\n[dependencies]\ninjectorpp = { path = "%s" }\n[workspace]\n' % extract.REPO.rstrip("/"))
+        if not os.path.exists(os.path.join(extract.REPO, "Cargo.toml")):
+            open(os.path.join(d, "Cargo.toml"), "w").write('[package]\nname = "abi_replay"\nversion = "0.0.0"\nedition = "2021"\n[dependencies]\ninjectorpp = { path = "/repo" }\n[workspace]\n')
+        open(os.path.join(d, "src", "main.rs"), "w").write(prog)
+        env = dict(os.environ, CARGO_TARGET_DIR=os.path.join(verif, "work", "replay-target"), CARGO_NET_OFFLINE="true")
+        b = subprocess.run(["cargo", "run", "--offline", "-q"], cwd=d, env=env, stdout=subprocess.PIPE, stderr=subprocess.STDOUT, text=True, timeout=600)
+        out.append(dict(arm=a["idx"], exit=b.returncode, transcript=b.stdout[-600:]))
+        import shutil as _sh
+        _sh.rmtree(d, ignore_errors=True)
+    return dict(reproduced=any(o["exit"] != 0 for o in out), runs=out)
+
+
+STATIC["c13_fake_abi_matches"] = dict(props=["C13", "C08"], fn=scan_fake_abi, obligation="C13.fake.abi", replay_static=replay_fake_abi)
